@@ -1,42 +1,694 @@
 package main
 
 import (
+	"fmt"
 	"go/token"
+	"go/types"
+	"strings"
 
 	"golang.org/x/tools/go/ssa"
 )
 
-// Contract machinery (requires/ensures/invariants/site assertions).
+// Contract machinery: requires / ensures / holds, struct (monitor) invariants,
+// loop invariants, site assertions, ghost snapshots, modular calls.
 
-func (t *fnTrans) contractEntry() {}
+func (t *fnTrans) selfCtx() *evalCtx {
+	return &evalCtx{t: t, fn: t.fn, st: t.cur, old: t.entry, binds: map[string]sval{}, locals: true}
+}
 
-func (t *fnTrans) contractReturn(in *ssa.Return, rs []string) {}
+// lockKeyExpr evaluates a lock path (a spec expression such as s.Mutex or
+// c.s.Mutex) to its ghost key, plus the owning object and "Type.field".
+func (t *fnTrans) lockKeyExpr(e *evalCtx, path string) (key string, owner sval, field string, ok bool) {
+	defer func() {
+		if r := recover(); r != nil {
+			ok = false
+		}
+	}()
+	x, err := parseSpec(path)
+	if err != nil {
+		return "", sval{}, "", false
+	}
+	v := e.eval(x)
+	if !v.addr {
+		return "", sval{}, "", false
+	}
+	// owner = the expression minus its last selector
+	if x.op == "sel" {
+		owner = e.eval(x.args[0])
+		field = t.g.typeKey(deref(owner.typ)) + "." + x.val
+		// promoted through embedding? recompute the precise owning struct
+		if obj, path, _ := types.LookupFieldOrMethod(owner.typ, true, e.pkgFor(owner.typ), x.val); obj != nil && len(path) > 1 {
+			cur := owner
+			for _, idx := range path[:len(path)-1] {
+				cur = e.fieldStep(cur, idx)
+			}
+			owner = cur
+			field = t.g.typeKey(deref(owner.typ)) + "." + x.val
+		}
+	}
+	return v.term, owner, field, true
+}
 
-func (t *fnTrans) loopInvariants(li *loopInfo, kind string, phiVals map[*ssa.Phi]string, pos token.Pos) {}
+func (t *fnTrans) contractEntry() {
+	fc := t.contract
+	if fc == nil {
+		return
+	}
+	e := t.selfCtx()
+	e.locals = false
+	e.st = t.cur
+	for _, r := range append(append([]specLine{}, fc.requires...), fc.assumes...) {
+		if term, ok := t.evalBool(e, r); ok {
+			t.assume(term)
+		}
+	}
+	for _, path := range fc.holds {
+		if _, owner, _, ok := t.lockKeyExpr(e, path); ok && owner.typ != nil {
+			t.assumeInvariants(owner)
+		}
+	}
+}
 
-func (t *fnTrans) loopInvariantsAssume(li *loopInfo) {}
+func (t *fnTrans) structAnnOf(T types.Type) *StructAnn {
+	return t.g.ann.structs[t.g.typeKey(deref(T))]
+}
 
-func (t *fnTrans) siteBefore(site string, in ssa.Instruction, cc *ssa.CallCommon) {}
+func (t *fnTrans) assumeInvariants(obj sval) {
+	sa := t.structAnnOf(obj.typ)
+	if sa == nil {
+		return
+	}
+	for _, inv := range sa.invs {
+		e := &evalCtx{t: t, fn: t.fn, st: t.cur, old: t.entry, binds: map[string]sval{}, this: &obj}
+		if term, ok := t.evalBool(e, inv); ok {
+			t.assume(term)
+		}
+	}
+}
+
+func (t *fnTrans) assertInvariants(obj sval, pos token.Pos, disc string) {
+	sa := t.structAnnOf(obj.typ)
+	if sa == nil {
+		return
+	}
+	for k, inv := range sa.invs {
+		e := &evalCtx{t: t, fn: t.fn, st: t.cur, old: t.entry, binds: map[string]sval{}, this: &obj}
+		if term, ok := t.evalBool(e, inv); ok {
+			save := t.cur.reach
+			t.oblige("monitor", fmt.Sprintf("%s:%s.inv%d", disc, sa.name, k+1), pos, term, "struct invariant must hold when the lock is released: "+inv.text)
+			// do not let a failed invariant mask the rest: keep going under the original reach
+			_ = save
+		}
+	}
+}
+
+func (t *fnTrans) contractReturn(in *ssa.Return, rs []string) {
+	fc := t.contract
+	var results []sval
+	for i, r := range in.Results {
+		results = append(results, sval{term: rs[i], typ: r.Type(), sort: t.sortOf(r.Type())})
+	}
+	site := t.sites[in]
+	if fc != nil {
+		e := &evalCtx{t: t, fn: t.fn, st: t.cur, old: t.entry, binds: map[string]sval{}, results: results}
+		for _, path := range fc.holds {
+			eOld := *e
+			eOld.st = t.entry
+			if _, owner, _, ok := t.lockKeyExpr(&eOld, path); ok && owner.typ != nil {
+				t.assertInvariants(owner, in.Pos(), "exit")
+			}
+		}
+		for k, en := range fc.ensures {
+			if term, ok := t.evalBool(e, en); ok {
+				t.oblige("post", fmt.Sprintf("post%d@%s", k+1, site), in.Pos(), term, "ensures "+en.text)
+			}
+		}
+	}
+	// behavioural subtyping: interface contracts this method implements
+	for _, ic := range t.g.ifaceContractsFor(t.fn) {
+		binds := map[string]sval{}
+		sig := ic.method.Type().(*types.Signature)
+		for i := 0; i < sig.Params().Len(); i++ {
+			if n := sig.Params().At(i).Name(); n != "" && i+1 < len(t.fn.Params) {
+				p := t.fn.Params[i+1]
+				binds[n] = sval{term: t.val(p), typ: p.Type(), sort: t.sortOf(p.Type())}
+			}
+		}
+		if len(t.fn.Params) > 0 {
+			p := t.fn.Params[0]
+			binds["self"] = sval{term: t.val(p), typ: p.Type(), sort: t.sortOf(p.Type())}
+		}
+		e := &evalCtx{t: t, fn: t.fn, st: t.cur, old: t.entry, binds: binds, results: results}
+		for k, en := range ic.fc.ensures {
+			if term, ok := t.evalBool(e, en); ok {
+				t.oblige("subtype", fmt.Sprintf("%s.post%d@%s", ic.name, k+1, site), in.Pos(), term, "interface contract "+ic.name+": ensures "+en.text)
+			}
+		}
+	}
+	// objects constructed here and returned must satisfy their invariants
+	for _, r := range in.Results {
+		if a, ok := r.(*ssa.Alloc); ok && t.local[a] {
+			obj := sval{term: t.val(a), typ: a.Type(), sort: "Int"}
+			t.assertInvariants(obj, in.Pos(), "construct")
+		}
+		if mi, ok := r.(*ssa.MakeInterface); ok {
+			if a, ok := mi.X.(*ssa.Alloc); ok && t.local[a] {
+				obj := sval{term: t.val(a), typ: a.Type(), sort: "Int"}
+				t.assertInvariants(obj, in.Pos(), "construct")
+			}
+		}
+	}
+}
+
+type ifaceImpl struct {
+	name   string
+	fc     *FuncContract
+	method *types.Func
+}
+
+func (g *Gen) ifaceContractsFor(fn *ssa.Function) []ifaceImpl {
+	if r, ok := g.ifaceImplCache[fn]; ok {
+		return r
+	}
+	var out []ifaceImpl
+	defer func() { g.ifaceImplCache[fn] = out }()
+	recv := fn.Signature.Recv()
+	if recv == nil || fn.Parent() != nil {
+		return nil
+	}
+	for key, fc := range g.ann.ifaces {
+		// key: pkg.Iface.Method
+		i := strings.LastIndex(key, ".")
+		ik, mname := key[:i], key[i+1:]
+		if mname != fn.Name() {
+			continue
+		}
+		j := strings.LastIndex(ik, ".")
+		it := g.lookupNamed(ik[:j], ik[j+1:])
+		if it == nil {
+			continue
+		}
+		iface, ok := it.Underlying().(*types.Interface)
+		if !ok {
+			continue
+		}
+		if !types.Implements(recv.Type(), iface) {
+			continue
+		}
+		for k := 0; k < iface.NumMethods(); k++ {
+			if iface.Method(k).Name() == mname {
+				out = append(out, ifaceImpl{name: key, fc: fc, method: iface.Method(k)})
+				fc.used = true
+			}
+		}
+	}
+	return out
+}
+
+func (g *Gen) lookupNamed(pkg, name string) types.Type {
+	for _, p := range g.spkgs {
+		if p == nil || g.relPkg(p.Pkg.Path()) != pkg {
+			continue
+		}
+		if o := p.Pkg.Scope().Lookup(name); o != nil {
+			return o.Type()
+		}
+	}
+	return nil
+}
+
+// ---- loops -----------------------------------------------------------------------
+
+func (t *fnTrans) loopInvariants(li *loopInfo, kind string, phiVals map[*ssa.Phi]string, pos token.Pos) {
+	if t.contract == nil {
+		return
+	}
+	for k, inv := range t.contract.loopInv[li.ord] {
+		e := t.selfCtx()
+		e.phi = phiVals
+		save := t.curBlock
+		t.curBlock = li.header
+		term, ok := t.evalBool(e, inv)
+		t.curBlock = save
+		if ok {
+			t.oblige(kind, fmt.Sprintf("loop%d:inv%d", li.ord, k+1), pos, term, "loop invariant "+inv.text)
+		}
+	}
+}
+
+func (t *fnTrans) loopInvariantsAssume(li *loopInfo) {
+	t.autoInvariants(li)
+	if t.contract == nil {
+		return
+	}
+	for _, inv := range t.contract.loopInv[li.ord] {
+		e := t.selfCtx()
+		if term, ok := t.evalBool(e, inv); ok {
+			t.assume(term)
+		}
+	}
+}
+
+// autoInvariants: a loop-carried integer that only ever moves by a positive
+// (negative) constant stays >= (<=) its entry value. Sound for mathematical integers.
+func (t *fnTrans) autoInvariants(li *loopInfo) {
+	b := li.header
+	for _, in := range b.Instrs {
+		phi, ok := in.(*ssa.Phi)
+		if !ok {
+			break
+		}
+		if _, _, isInt := intBits(phi.Type()); !isInt {
+			continue
+		}
+		dir := 0
+		var entry []ssa.Value
+		good := true
+		for k, p := range b.Preds {
+			ev := phi.Edges[k]
+			if !isBackEdge(p, b) {
+				entry = append(entry, ev)
+				continue
+			}
+			d, ok := stepOf(ev, phi, li)
+			if !ok || d == 0 {
+				good = false
+				break
+			}
+			s := 1
+			if d < 0 {
+				s = -1
+			}
+			if dir != 0 && dir != s {
+				good = false
+				break
+			}
+			dir = s
+		}
+		if !good || dir == 0 || len(entry) == 0 {
+			continue
+		}
+		for _, ev := range entry {
+			if _, def := t.vals[ev]; !def {
+				if _, isC := ev.(*ssa.Const); !isC {
+					good = false
+				}
+			}
+		}
+		if !good {
+			continue
+		}
+		// with several entry edges use the weakest bound only when they agree
+		if len(entry) != 1 {
+			continue
+		}
+		x := t.val(phi)
+		e0 := t.val(entry[0])
+		if dir > 0 {
+			t.assume("(>= " + x + " " + e0 + ")")
+		} else {
+			t.assume("(<= " + x + " " + e0 + ")")
+		}
+	}
+}
+
+// stepOf: v == phi + c along every path inside the loop (c constant; possibly via inner phis that all add the same sign)
+func stepOf(v ssa.Value, phi *ssa.Phi, li *loopInfo) (int64, bool) {
+	seen := map[ssa.Value]bool{}
+	var walk func(v ssa.Value) (int64, bool)
+	walk = func(v ssa.Value) (int64, bool) {
+		if v == phi {
+			return 0, true
+		}
+		if seen[v] {
+			return 0, false
+		}
+		seen[v] = true
+		switch x := v.(type) {
+		case *ssa.BinOp:
+			if x.Op == token.ADD || x.Op == token.SUB {
+				if c, ok := constInt(x.Y); ok {
+					d, ok2 := walk(x.X)
+					if !ok2 {
+						return 0, false
+					}
+					if x.Op == token.SUB {
+						c = -c
+					}
+					return d + c, true
+				}
+			}
+		case *ssa.Phi:
+			if !li.blocks[x.Block()] {
+				return 0, false
+			}
+			var dmin, dmax int64
+			first := true
+			for _, e := range x.Edges {
+				d, ok := walk(e)
+				if !ok {
+					return 0, false
+				}
+				if first {
+					dmin, dmax, first = d, d, false
+				} else {
+					if d < dmin {
+						dmin = d
+					}
+					if d > dmax {
+						dmax = d
+					}
+				}
+			}
+			if dmin > 0 {
+				return dmin, true
+			}
+			if dmax < 0 {
+				return dmax, true
+			}
+			if dmin >= 0 {
+				return 1, dmax > 0 && dmin > 0
+			}
+			return 0, false
+		}
+		return 0, false
+	}
+	return walk(v)
+}
+
+// ---- sites -----------------------------------------------------------------------
+
+func (t *fnTrans) siteBefore(site string, in ssa.Instruction, cc *ssa.CallCommon) {
+	if t.contract == nil {
+		return
+	}
+	for k, sl := range t.contract.atBefore[site] {
+		e := t.selfCtx()
+		if term, ok := t.evalBool(e, sl); ok {
+			t.oblige("site", fmt.Sprintf("before:%s:%d", site, k+1), in.Pos(), term, "assert before "+site+": "+sl.text)
+		}
+	}
+}
 
 func (t *fnTrans) siteAfter(site string, in ssa.Instruction, cc *ssa.CallCommon, res ssa.Value) {
 	t.siteState[site] = t.cur
 	t.cur = t.h.child(t.cur)
+	if t.contract == nil {
+		return
+	}
+	fc := t.contract
+	var siteResults []sval
+	if res != nil {
+		if vs, ok := t.vals[res]; ok {
+			if tu, isTu := res.Type().(*types.Tuple); isTu {
+				for i, term := range vs {
+					siteResults = append(siteResults, sval{term: term, typ: tu.At(i).Type(), sort: t.sortOf(tu.At(i).Type())})
+				}
+			} else {
+				siteResults = []sval{{term: vs[0], typ: res.Type(), sort: t.sortOf(res.Type())}}
+			}
+		}
+	}
+	for _, gl := range fc.ghost {
+		// ghost <name> = <expr> at <site>
+		name, expr, gsite, ok := splitGhost(gl.text)
+		if !ok {
+			t.g.ann.errs = append(t.g.ann.errs, fmt.Sprintf("%s:%d: ghost <name> = <expr> at <site>", gl.file, gl.line))
+			continue
+		}
+		if gsite != site {
+			continue
+		}
+		e := t.selfCtx()
+		e.results = siteResults
+		func() {
+			defer func() {
+				if r := recover(); r != nil {
+					t.g.ann.errs = append(t.g.ann.errs, fmt.Sprintf("%s:%d: ghost %s: %v", gl.file, gl.line, name, r))
+				}
+			}()
+			x, err := parseSpec(expr)
+			if err != nil {
+				panic(err)
+			}
+			v := e.eval(x)
+			v.st = t.siteState[site]
+			t.ghostVals[name] = v
+		}()
+	}
+	for _, sl := range fc.atAssume[site] {
+		e := t.selfCtx()
+		e.results = siteResults
+		if term, ok := t.evalBool(e, sl); ok {
+			t.assume(term)
+		}
+	}
+	for k, sl := range fc.at[site] {
+		e := t.selfCtx()
+		e.results = siteResults
+		if term, ok := t.evalBool(e, sl); ok {
+			t.oblige("site", fmt.Sprintf("at:%s:%d", site, k+1), in.Pos(), term, "assert at "+site+": "+sl.text)
+		}
+	}
 }
 
-func (t *fnTrans) monitorAssume(fa *ssa.FieldAddr, field string) {}
+func splitGhost(s string) (name, expr, site string, ok bool) {
+	i := strings.Index(s, "=")
+	j := strings.LastIndex(s, " at ")
+	if i < 0 || j < i {
+		return "", "", "", false
+	}
+	return strings.TrimSpace(s[:i]), strings.TrimSpace(s[i+1 : j]), strings.TrimSpace(s[j+4:]), true
+}
 
-func (t *fnTrans) monitorAssumeField(field string) {}
+// ---- monitor invariants at Lock / Unlock ----------------------------------------------
 
-func (t *fnTrans) monitorAssert(in ssa.Instruction, fa *ssa.FieldAddr, field, nm string) {}
+func (t *fnTrans) monitorAssume(fa *ssa.FieldAddr, field string) {
+	obj := sval{term: t.val(fa.X), typ: fa.X.Type(), sort: "Int"}
+	t.assumeInvariants(obj)
+	t.foreignInvariants(field, true, nil, "")
+}
 
-func (t *fnTrans) monitorAssertField(in ssa.Instruction, field, nm string) {}
+func (t *fnTrans) monitorAssert(in ssa.Instruction, fa *ssa.FieldAddr, field, nm string) {
+	if t.local[fa.X] {
+		return
+	}
+	obj := sval{term: t.val(fa.X), typ: fa.X.Type(), sort: "Int"}
+	t.assertInvariants(obj, in.Pos(), "unlock:"+nm)
+	t.foreignInvariants(field, false, in, "unlock:"+nm)
+}
+
+func (t *fnTrans) monitorAssumeField(field string) {
+	t.foreignInvariants(field, true, nil, "")
+}
+
+func (t *fnTrans) monitorAssertField(in ssa.Instruction, field, nm string) {
+	t.foreignInvariants(field, false, in, "wait:"+nm)
+}
+
+// foreignInvariants: invariants of structs whose fields are guarded by a lock that
+// lives in another object are attached (universally quantified by hand) to that
+// lock via `lockinv <Type.field>` clauses; none are generated automatically.
+func (t *fnTrans) foreignInvariants(field string, assume bool, in ssa.Instruction, disc string) {}
+
+// ---- modular calls ---------------------------------------------------------------------
+
+func (t *fnTrans) calleeBinds(callee *ssa.Function, cc *ssa.CallCommon) map[string]sval {
+	binds := map[string]sval{}
+	for i, p := range callee.Params {
+		if i < len(cc.Args) {
+			binds[p.Name()] = sval{term: t.val(cc.Args[i]), typ: p.Type(), sort: t.sortOf(p.Type())}
+		}
+	}
+	return binds
+}
+
+// resolveMods maps `modifies` entries to heap variable names.
+//   T.f  -> F:<pkg>.T.f     bytes -> E:Int     none -> nothing     raw heap names pass through
+func (t *fnTrans) modVars(fc *FuncContract, callee *ssa.Function) []string {
+	var out []string
+	for _, m := range fc.modifies {
+		switch {
+		case m == "none":
+		case m == "bytes":
+			out = append(out, "E:Int")
+		case m == "chclosed" || m == "ML" || strings.Contains(m, ":"):
+			out = append(out, m)
+		default:
+			out = append(out, "F:"+fc.pkg+"."+m)
+		}
+	}
+	return out
+}
 
 func (t *fnTrans) contractCall(in ssa.Instruction, callee *ssa.Function, cc *ssa.CallCommon, res ssa.Value, mc *ssa.MakeClosure) bool {
-	return false
+	fc := t.g.contractOf(callee)
+	if fc == nil {
+		return false
+	}
+	if len(fc.requires) == 0 && len(fc.ensures) == 0 && len(fc.holds) == 0 && !fc.hasMods && !fc.pure && len(fc.acquires) == 0 && len(fc.releases) == 0 {
+		return false // annotation only about the callee's own body (nullable etc.)
+	}
+	binds := t.calleeBinds(callee, cc)
+	t.applyContract(in, fc, callee, t.g.summaries[callee], binds, cc, res, callee.Name(), t.g.fnKey(callee))
+	t.ownCallHook(in, callee, cc, res)
+	return true
 }
 
 func (t *fnTrans) contractInvoke(in ssa.Instruction, cc *ssa.CallCommon, res ssa.Value, tgts []*ssa.Function) bool {
-	return false
+	fc := t.g.ifaceContract(cc)
+	if fc == nil {
+		return false
+	}
+	binds := map[string]sval{}
+	sig := cc.Method.Type().(*types.Signature)
+	for i := 0; i < sig.Params().Len() && i < len(cc.Args); i++ {
+		if n := sig.Params().At(i).Name(); n != "" {
+			binds[n] = sval{term: t.val(cc.Args[i]), typ: sig.Params().At(i).Type(), sort: t.sortOf(sig.Params().At(i).Type())}
+		}
+	}
+	binds["self"] = sval{term: t.val(cc.Value), typ: cc.Value.Type(), sort: "Iface"}
+	// union of summaries of the implementations
+	sum := &summary{vars: map[string]bool{}, locks: map[string]bool{}}
+	if len(tgts) == 0 {
+		sum.all = true
+	}
+	for _, f := range tgts {
+		s := t.g.summaries[f]
+		if s == nil || s.all {
+			sum.all = true
+			continue
+		}
+		if s.blocks {
+			sum.blocks = true
+		}
+		for v := range s.vars {
+			sum.vars[v] = true
+		}
+		for v := range s.locks {
+			sum.locks[v] = true
+		}
+	}
+	var anyFn *ssa.Function
+	if len(tgts) > 0 {
+		anyFn = tgts[0]
+	}
+	t.applyContract(in, fc, anyFn, sum, binds, cc, res, cc.Method.Name(), "invoke "+t.g.typeKey(cc.Value.Type())+"."+cc.Method.Name())
+	t.ownInvokeHook(in, cc, res)
+	return true
 }
 
-func (t *fnTrans) modVars(fc *FuncContract, callee *ssa.Function) []string { return fc.modifies }
+func (t *fnTrans) applyContract(in ssa.Instruction, fc *FuncContract, callee *ssa.Function, sum *summary, binds map[string]sval, cc *ssa.CallCommon, res ssa.Value, short, full string) {
+	site := t.sites[in]
+	if site == "" {
+		site = "call:" + short
+	}
+	efn := callee
+	if efn == nil {
+		efn = t.fn
+	}
+	pre := &evalCtx{t: t, fn: efn, st: t.cur, old: t.cur, binds: binds, where: full}
+	// locks the callee expects to be held
+	for _, path := range fc.holds {
+		if k, _, lf, ok := t.lockKeyExpr(pre, path); ok {
+			goal := sel(t.h.get(t.cur, "held"), k)
+			if strings.Count(path, ".") >= 2 {
+				goal = or(goal, t.heldOfType(lf))
+			}
+			t.oblige("pre", site+":holds:"+path, in.Pos(), goal, short+" must be called with "+path+" held")
+		} else {
+			t.g.ann.errs = append(t.g.ann.errs, fmt.Sprintf("%s: cannot resolve lock path %q of callee %s", t.key, path, full))
+		}
+	}
+	for _, path := range fc.releases {
+		if k, _, _, ok := t.lockKeyExpr(pre, path); ok {
+			t.oblige("pre", site+":holds:"+path, in.Pos(), sel(t.h.get(t.cur, "held"), k), short+" must be called with "+path+" held")
+		}
+	}
+	for k, r := range fc.requires {
+		if term, ok := t.evalBool(pre, r); ok {
+			t.oblige("pre", fmt.Sprintf("%s:req%d", site, k+1), in.Pos(), term, "precondition of "+short+": "+r.text)
+		}
+	}
+	if sum != nil {
+		if sum.blocks && !fc.pure {
+			t.blockCheck(in.Pos(), "call:"+short)
+		}
+		if callee != nil {
+			t.lockCallCheck(in, callee, sum)
+		}
+	}
+	// lock keys are evaluated in the pre-state
+	var acq, rel []string
+	for _, path := range fc.acquires {
+		if k, _, _, ok := t.lockKeyExpr(pre, path); ok {
+			acq = append(acq, k)
+		}
+	}
+	for _, path := range fc.releases {
+		if k, _, _, ok := t.lockKeyExpr(pre, path); ok {
+			rel = append(rel, k)
+		}
+	}
+	preState := t.cur
+	t.cur = t.h.child(t.cur)
+	if fc.pure {
+		// result is a function of the arguments only
+		if res != nil {
+			var as, sorts []string
+			for _, a := range cc.Args {
+				as = append(as, t.val(a))
+				sorts = append(sorts, t.sortOf(a.Type()))
+			}
+			if cc.IsInvoke() {
+				as = append([]string{t.val(cc.Value)}, as...)
+				sorts = append([]string{"Iface"}, sorts...)
+				fn := t.c.declareFun("pure:"+short+":Iface", sorts, t.sortOf(res.Type()))
+				v := t.setVal(res, "("+fn+" "+strings.Join(as, " ")+")")
+				t.assumeType(v, res.Type())
+			} else if len(as) > 0 {
+				fn := t.c.declareFun("pure:"+short+":"+bare(sorts[0]), sorts, t.sortOf(res.Type()))
+				v := t.setVal(res, "("+fn+" "+strings.Join(as, " ")+")")
+				t.assumeType(v, res.Type())
+			} else {
+				t.freshResults(res, nameOf(res, "r"))
+			}
+		}
+	} else {
+		if fc.hasMods {
+			vars := map[string]bool{}
+			for _, v := range t.modVars(fc, callee) {
+				vars[v] = true
+			}
+			t.havocVars(false, vars)
+		} else if sum == nil {
+			t.havocVars(true, nil)
+		} else {
+			t.havocVars(sum.all, sum.vars)
+		}
+		t.freshResults(res, nameOf(res, "r"))
+	}
+	for _, k := range acq {
+		t.h.set(t.cur, "held", store(t.h.get(t.cur, "held"), k, "true"))
+	}
+	for _, k := range rel {
+		t.h.set(t.cur, "held", store(t.h.get(t.cur, "held"), k, "false"))
+	}
+	var results []sval
+	if res != nil {
+		if tu, ok := res.Type().(*types.Tuple); ok {
+			for i, term := range t.vals[res] {
+				results = append(results, sval{term: term, typ: tu.At(i).Type(), sort: t.sortOf(tu.At(i).Type())})
+			}
+		} else {
+			results = []sval{{term: t.vals[res][0], typ: res.Type(), sort: t.sortOf(res.Type())}}
+		}
+	}
+	post := &evalCtx{t: t, fn: efn, st: t.cur, old: preState, binds: binds, results: results, where: full}
+	for _, en := range fc.ensures {
+		if term, ok := t.evalBool(post, en); ok {
+			t.assume(term)
+		}
+	}
+	t.usedContracts[full] = true
+}
